@@ -23,6 +23,12 @@ func addMonitor(list *[]string, s string) {
 }
 
 func monitorKind(s string) string {
+	// a mutated message: the kind is the clause, the variant and the event it was made from (not who sent it)
+	if i := strings.Index(s, ": mutated message ("); i > 0 {
+		if j := strings.Index(s[i:], " from "); j > 0 {
+			return s[:i+j]
+		}
+	}
 	var b strings.Builder
 	for _, r := range s {
 		if r < '0' || r > '9' {
